@@ -235,6 +235,58 @@ func ops() []opdef {
 			return func(ctx context.Context) error { _, err := lib.ClientEstablishGuest(ctx, cc, "alice"); return err }
 		})
 	}
+	// ---- the high-level Client while no server can be reached: its operations build the channel
+	// themselves (with a growing pause between attempts) or wait for the background listener that does
+	unreachable := func() *lime.ClientConfig {
+		ccfg := lime.NewClientConfig()
+		ccfg.Node = lime.Node{Identity: lime.Identity{Name: "alice", Domain: "cli.test"}, Instance: "i"}
+		ccfg.ChannelBufferSize = 1
+		ccfg.CompSelector, ccfg.EncryptSelector, ccfg.Authenticator = lime.NoneCompressionSelector, lime.NoneEncryptionSelector, lime.GuestAuthenticator
+		ccfg.NewTransport = func(context.Context) (lime.Transport, error) { return nil, errors.New("connection refused") }
+		return ccfg
+	}
+	add("client.Establish/server-unreachable", 0, func(x *harness.X) func(context.Context) error {
+		client := lime.NewClient(unreachable(), &lime.EnvelopeMux{})
+		return func(ctx context.Context) error { return client.Establish(ctx) }
+	})
+	add("client.SendMessage/server-unreachable", 0, func(x *harness.X) func(context.Context) error {
+		client := lime.NewClient(unreachable(), &lime.EnvelopeMux{})
+		return func(ctx context.Context) error { return client.SendMessage(ctx, lib.Msg("m", "x")) }
+	})
+	add("client.SendMessage/server-gone-listener-retrying", 0, func(x *harness.X) func(context.Context) error {
+		// established once; then the server goes away for good and the client's own listener
+		// keeps trying to rebuild the channel in the background
+		pl := lib.NewPipeListener(nil, 64<<10, 1)
+		scfg := lime.NewServerConfig()
+		scfg.Node = lib.ServerNode
+		scfg.SchemeOpts = []lime.AuthenticationScheme{lime.AuthenticationSchemeGuest}
+		scfg.EncryptOpts = []lime.SessionEncryption{lime.SessionEncryptionNone}
+		scfg.Backlog, scfg.ChannelBufferSize = 1, 1
+		scfg.Authenticate, scfg.Register = lib.GuestOK, lib.RegisterSame
+		srv := lime.NewServer(scfg, &lime.EnvelopeMux{}, lime.NewBoundListener(pl, lib.PipeAddr("p")))
+		go func() { _ = srv.ListenAndServe() }()
+		gone := false
+		ccfg := unreachable()
+		ccfg.NewTransport = func(context.Context) (lime.Transport, error) {
+			if gone {
+				return nil, errors.New("connection refused")
+			}
+			return lime.NewTCPTransportFromConn(pl.Dial(), nil, false), nil
+		}
+		client := lime.NewClient(ccfg, &lime.EnvelopeMux{})
+		ectx, ec := context.WithTimeout(context.Background(), 30*time.Second)
+		defer ec()
+		if err := client.Establish(ectx); err != nil {
+			panic("harness: client could not establish: " + err.Error())
+		}
+		gone = true
+		_ = srv.Close()
+		for i := 0; i < 2; i++ {
+			rt.Quiesce()
+			time.Sleep(6 * time.Second)
+		}
+		return func(ctx context.Context) error { return client.SendMessage(ctx, lib.Msg("m", "x")) }
+	})
 	// ---- client establishment stalling at each later stage (TCP, scripted server)
 	for _, stage := range []string{"negotiating", "authenticating", "tls"} {
 		stage := stage
@@ -338,7 +390,7 @@ func main() {
 	harness.Main(harness.Check{
 		Property: "C15",
 		Level:    "model_checking",
-		Rule:     fmt.Sprintf("%d operation/transport/peer combinations (transport Send/Receive, in-process Accept, the four channel sends and ProcessCommand with a peer that consumes nothing, client FinishSession, server and client EstablishSession with a silent peer and with a server going silent after negotiation options, after the authentication request and after confirming tls) x {deadline, cancellation by another goroutine, cancellation of a context that also has a far deadline} x {3s, 7s}; one operation per execution; all schedules within the deviation bound (delay bounding); latency measured on the virtual clock, which only advances when every goroutine is blocked; distinct outcome = distinct observation log", len(all)),
+		Rule:     fmt.Sprintf("%d operation/transport/peer combinations (transport Send/Receive, in-process Accept, the four channel sends and ProcessCommand with a peer that consumes nothing, client FinishSession, the high-level Client's Establish and SendMessage while no server can be reached (alone, and while its background listener keeps retrying), server and client EstablishSession with a silent peer and with a server going silent after negotiation options, after the authentication request and after confirming tls) x {deadline, cancellation by another goroutine, cancellation of a context that also has a far deadline} x {3s, 7s}; one operation per execution; all schedules within the deviation bound (delay bounding); latency measured on the virtual clock, which only advances when every goroutine is blocked; distinct outcome = distinct observation log", len(all)),
 		Assume:   []string{"virtual-clock promptness: shows the return does not depend on any timer later than allowed, not wall-clock microseconds", "real TCP/WebSocket listeners' Accept uses OS sockets and is not explored (the repository's own tests cover the deadline case natively); the WebSocket transport itself is (gorilla connections over a virtual pipe)"},
 		Scenarios: []harness.Scenario{
 			{Name: "isolated-ops", Opt: opt, Quick: 1, Thorough: 2, Prune: false, Body: body(all), Final: final},
